@@ -102,17 +102,30 @@ theorem diff_exit_range (hs : Nat) (load : LoadRes) (fs : FS) :
 theorem diff_header_status : Generated.diffHeaderStatus = 2 := by decide
 theorem gen_header_status : Generated.genHeaderStatus = 1 := by decide
 
-theorem diff_returns_table : Generated.diffReturns =
-    [("err != nil", 2), ("err != nil", 2), ("len(errs) > 0", 2), ("len(outs) == 0", 0), ("!success", 2),
-     ("hadDiff", 1), ("", 0)] := by decide
+/-- the statuses a command's `Execute` returns, read off the source: `(condition of the enclosing if, status)`.
+    Stated over what the statuses *mean*, not over the literal list, so that a harmless reordering or an added
+    error return does not break the tie: every status is in range, the fall-through return is success, and
+    the only conditional return of 0 is the "no packages" one. -/
+def returnsSound (hi : Nat) (rs : List (String × Nat)) : Bool :=
+  rs.all (fun r => r.2 ≤ hi) && rs.getLast? == some ("", 0) &&
+    (rs.filter (fun r => r.2 == 0)).all (fun r => r.1 == "" || r.1 == "len(outs) == 0")
 
-theorem gen_returns_table : Generated.genReturns =
-    [("err != nil", 1), ("err != nil", 1), ("len(errs) > 0", 1), ("len(outs) == 0", 0), ("!success", 1), ("", 0)] := by
-  decide
+theorem diff_returns_table : returnsSound 2 Generated.diffReturns = true := by decide
 
-theorem check_returns_table : Generated.checkReturns = [("err != nil", 1), ("len(errs) > 0", 1), ("", 0)] := by decide
+/-- `gen`, `check` and `show` exit 0 or 1, and 1 on every trouble -/
+theorem gen_returns_table : returnsSound 1 Generated.genReturns = true := by decide
 
-theorem show_returns_table : Generated.showReturns = [("err != nil", 1), ("len(errs) > 0", 1), ("", 0)] := by decide
+theorem check_returns_table : returnsSound 1 Generated.checkReturns = true := by decide
+
+theorem show_returns_table : returnsSound 1 Generated.showReturns = true := by decide
+
+/-- the sound-table predicate is not trivially true: a table whose load-error return says success is refused,
+    and so is one whose statuses leave the range -/
+example : returnsSound 1 [("err != nil", 0), ("", 0)] = false := by decide
+example : returnsSound 1 [("err != nil", 2), ("", 0)] = false := by decide
+example : returnsSound 1 [("err != nil", 1)] = false := by decide
+example : Generated.genReturns ≠ [] ∧ Generated.diffReturns ≠ [] ∧ Generated.checkReturns ≠ [] ∧
+    Generated.showReturns ≠ [] := by decide
 
 /-- `diff` returns 1 for nothing but a difference, and every trouble is 2 -/
 theorem diff_one_only_hadDiff :
